@@ -39,6 +39,15 @@ CHANNELS = [(rpc.CONTROL_PUBSUB, rpc.PROXY_CONTROL_PUBSUB),
             (rpc.STATE_PUBSUB,   rpc.PROXY_STATE_PUBSUB)]
 
 
+def wire(msg):
+    """what a subscriber receives: plain data, new objects.  Typed messages
+    (ru.Message) go through the real msgpack encoder of ru.zmq"""
+    if type(msg) is dict:
+        return json.loads(json.dumps(msg))
+    from radical.utils.serialize import to_msgpack, from_msgpack
+    return ru.as_string(from_msgpack(to_msgpack(msg)))
+
+
 class Net(object):
     def __init__(self, budget):
         self.subs   = {}        # url -> [cb]
@@ -58,7 +67,7 @@ class Net(object):
             if self.hops > self.budget:
                 return False                    # circulates
             for cb in self.subs.get(url, []):
-                cb(topic, json.loads(json.dumps(msg)))   # wire serialisation
+                cb(topic, wire(msg))                     # wire serialisation
         return True
 
 
@@ -114,7 +123,7 @@ def build(n_pilots, budget, early=None):
             for q in pend:
                 net.pending.remove(q)
                 try:
-                    cb(q[1], json.loads(json.dumps(q[2])))
+                    cb(q[1], wire(q[2]))
                 except Exception as e:
                     net.swallowed.append(repr(e))
         def stop(self): pass
@@ -131,11 +140,12 @@ def build(n_pilots, budget, early=None):
         for loc, _ in CHANNELS:
             url = 'local:%s:%s' % (sd, loc.lower())
             net.subscribe(url, lambda topic, msg, sd=sd, loc=loc:
-                          got[sd].append((loc, msg.get('mid'))))
+                          got[sd].append((loc, msg.get('mid',
+                                                                msg.get('uid')))))
         if early and sd == early[0]:
             url = 'local:%s:%s' % (sd, early[1].lower())
             for cb in net.subs.get(url, []):
-                cb(early[1], json.loads(json.dumps(early[2])))
+                cb(early[1], wire(early[2]))
             net.pending.append((url, early[1], early[2]))
         s = mk_side(net, sd)
         real(s._crosswire_proxy)
@@ -288,3 +298,53 @@ def h_forward_while_wiring(src, chan):
         n = sum(1 for c, m in got[sd] if m == 5)
         check(n == 1, 'side %s received the message %s times (forwarder '
               'errors: %s)', sd, n, net.swallowed)
+
+
+# ------------------------------------------------------------------------------
+import radical.pilot.messages as m_msg                              # noqa: E402
+
+TYPED = [('rpc_req', lambda: m_msg.RPCRequestMessage(uid='77', cmd='hello',
+                                                     args=[1], kwargs={})),
+         ('rpc_res', lambda: m_msg.RPCResultMessage(uid='77', val=3, out='o')),
+         ('rpc_res of req', lambda: m_msg.RPCResultMessage(
+              rpc_req=m_msg.RPCRequestMessage(uid='77', cmd='hello'), val=1)),
+         ('component_start', lambda: m_msg.ComponentStartedMessage(uid='77',
+                                                                   pid=1)),
+         ('rpc_req local', lambda: m_msg.RPCRequestMessage(uid='77', cmd='x',
+                                                           fwd=False))]
+
+
+@obligation(params={'kind': (0, 4), 'src': (0, 2), 'np': (1, 2)},
+            timeout={'quick': 200, 'thorough': 400},
+            funcs=['radical/pilot/session.py:Session.crosswire_pubsub.'
+                   '<locals>.pubsub_fwd',
+                   'radical/pilot/messages.py:RPBaseMessage',
+                   'radical/pilot/messages.py:RPCRequestMessage',
+                   'radical/pilot/messages.py:RPCResultMessage'],
+            bounds='typed control messages (RPC request, RPC result - also '
+                   'built from a request -, component start, RPC request with '
+                   'fwd=False) published on the control channel of the client '
+                   'or of one of 1..2 pilots',
+            stubs=['wire = real ru msgpack encoder + decoder'])
+def h_forward_typed(kind, src, np):
+    """typed messages obey their forward flag like plain ones"""
+    kind, src, np = conc(kind, 0, 4), conc(src, 0, 2), conc(np, 1, 2)
+    if src > np: return
+    net, sides, got = build(np, budget=8 * (np + 1))
+    name, mk = TYPED[kind]
+    msg  = mk()
+    side = sides[src]
+    loc  = CHANNELS[0][0]
+    net.put('local:%s:%s' % (side, loc.lower()), loc, msg)
+    quiet = net.run()
+    reach()
+    trace('typed', name, 'from', side, 'got', got)
+    check(quiet, 'typed message still circulates after %s hops', net.hops)
+    want_fwd = bool(msg.get('fwd'))
+    check(want_fwd == (kind in (0, 1, 2)), '%s message has fwd=%r', name,
+          msg.get('fwd'))
+    for sd in sides:
+        n = sum(1 for c, m in got[sd] if m == '77')
+        exp = 1 if (sd == side or want_fwd) else 0
+        check(n == exp, '%s message from %s seen %s times on %s (expected %s)',
+              name, side, n, sd, exp)
